@@ -181,6 +181,15 @@ def run(ctx):
                     if b:
                         jh_drops.append(b)
     ctx.floor("R05.1", "destructors of join-handle types (ADT holding a thread::JoinHandle)", len(jh_drops), 1)
+    # (signal-and-join may be a private associated function the destructor hands the taken handle to)
+    jh2 = []
+    for b in jh_drops:
+        if any(c.is_in("std::thread", "JoinHandle::join") for c in b.calls()):
+            jh2.append(b)
+            continue
+        hs_ = [hb for c in b.calls() for hb in local_callee_bodies(F, c) if hb.crate == BG and hb.kind != "Closure" and any(x.is_in("std::thread", "JoinHandle::join") for x in hb.calls())]
+        jh2 += hs_ or [b]
+    jh_drops = jh2
     for b in jh_drops:
         is_flag_store = lambda c: c.is_("core::sync::atomic::Atomic::<bool>::store", "core::sync::atomic::AtomicBool::store")
         stores = [c for c in b.calls() if is_flag_store(c)]
